@@ -124,6 +124,19 @@ OgreArrayPoolAllocator<DataType, ContainerType, POOL_SIZE> {
 }
 
 
+/// verification hooks: gives the external harness access to the free list (to name its shared cells) and to the pool bounds
+#[cfg(feature = "verif")]
+impl<DataType:        Send + Sync,
+     ContainerType:   MoveContainer<u32>,
+     const POOL_SIZE: usize>
+OgreArrayPoolAllocator<DataType, ContainerType, POOL_SIZE> {
+    pub fn verif_free_list(&self) -> &ContainerType { &self.free_list }
+    /// (address of pool[0], size of a pool slot)
+    pub fn verif_pool(&self) -> (usize, usize) {
+        (unsafe { (&*self.pool.get()).as_ptr() as usize }, std::mem::size_of::<DataType>())
+    }
+}
+
 impl<DataType:        Debug + Send + Sync,
      ContainerType:   MoveContainer<u32>,
      const POOL_SIZE: usize>
